@@ -22,7 +22,8 @@ N2S(n) == ToString(n)
 ZS(tid, sid, parent, ts, dur, name, local, remote, tags, order, big) ==
   [tid |-> tid, sid |-> sid, parent |-> parent, ts |-> ts, dur |-> dur, name |-> name, local |-> local,
    remote |-> remote, tags |-> tags, order |-> order, big |-> big]
-ZBody(framing, tsKind, spans) == [proto |-> "zipkin", framing |-> framing, tsKind |-> tsKind, spans |-> spans, groups |-> <<>>]
+ZBodyS(framing, tsKind, spell, spans) == [proto |-> "zipkin", framing |-> framing, tsKind |-> tsKind, spell |-> spell, spans |-> spans, groups |-> <<>>]
+ZBody(framing, tsKind, spans) == ZBodyS(framing, tsKind, "any", spans)
 T(k, v) == [k |-> k, v |-> v]
 Framings == {"array", "ndjson"}
 TsKinds == {"number", "string"}
@@ -37,6 +38,21 @@ ZBodiesIds(u_) ==
                      IF par = <<>> THEN G4 \o <<"name", "localEndpoint", "tags">>
                      ELSE G4 \o <<"parentId", "name", "localEndpoint", "tags">>, 0)>>) :
      fr \in Framings, tk \in TsKinds, tid \in ZTids, sid \in ZSids, par \in ZPars}
+
+(* spellings: ids whose value has leading zero digits (low blocks: an odd number of significant digits) in every  *)
+(* position of every id field, full and short, each body written "padded" (all digits) and "stripped" (no leading  *)
+(* zero digits, the %x spelling: odd digit counts, 15 / 31-digit ids, "0"); a second span hangs under the first    *)
+ZSpTids == {<<"a", "b">>, <<"l1", "b">>, <<"l1">>}
+ZSpSids == {<<"c", "d">>, <<"l2", "d">>, <<"l2">>, <<"0", "l2">>}
+ZSpPars == {<<>>, <<"e", "g">>, <<"l3", "g">>, <<"l3">>, <<"0", "l3">>, <<"0", "e">>}
+ZBodiesSpell(u_) ==
+  {ZBodyS(fr, "number", sp,
+          <<ZS(tid, sid, par, 10, 5, "@n1", "@L1", "-", <<T("@k1", "@v11")>>,
+               IF par = <<>> THEN G4 \o <<"name", "localEndpoint", "tags">>
+               ELSE G4 \o <<"parentId", "name", "localEndpoint", "tags">>, 0)>>
+          \o (IF child THEN <<ZS(tid, <<"c", "s2">>, sid, 20, 2, "@n2", "@L1", "-", <<T("@k1", "@v21")>>,
+                                  G4 \o <<"parentId", "name", "localEndpoint", "tags">>, 0)>> ELSE <<>>)) :
+     fr \in Framings, sp \in {"padded", "stripped"}, tid \in ZSpTids, sid \in ZSpSids, par \in ZSpPars, child \in BOOLEAN}
 
 (* orders: one span, every subset of the optional keys, every endpoint shape, EVERY order of the optional keys,   *)
 (* the four mandatory keys before or after them                                                                 *)
@@ -82,7 +98,7 @@ ZBodiesBig(u_) == {ZBody(fr, "string", ss) : fr \in Framings, ss \in {x \in ZBig
 (* ----------------------------------------------- OTLP ----------------------------------------------------- *)
 OS(tid, sid, parent, start, end, name, attrs, big) ==
   [tid |-> tid, sid |-> sid, parent |-> parent, start |-> start, end |-> end, name |-> name, attrs |-> attrs, big |-> big]
-OBody(groups) == [proto |-> "otlp", framing |-> "pb", tsKind |-> "number", spans |-> <<>>, groups |-> groups]
+OBody(groups) == [proto |-> "otlp", framing |-> "pb", tsKind |-> "number", spell |-> "any", spans |-> <<>>, groups |-> groups]
 Grp(rattrs, scopes) == [rattrs |-> rattrs, scopes |-> scopes]
 Sc(t, a) == AV(t, a, <<>>, <<>>)
 List(e) == AV("list", "", e, <<>>)
@@ -145,6 +161,7 @@ OBodiesBig(u_) == {OBody(<<Grp(<<rSvc>>, <<ss>>)>>) : ss \in {x \in OBigs(0) : \
 (* TLC evaluates every parameterless constant definition at start-up: the families take a dummy argument so that  *)
 (* only the selected one is ever built                                                                           *)
 FamilyBodies == TLCEval(CASE Family = "zids"    -> ZBodiesIds(0)
+                  [] Family = "zspell"  -> ZBodiesSpell(0)
                   [] Family = "zorders" -> ZBodiesOrders(0)
                   [] Family = "zbatch"  -> ZBodiesBatch(0)
                   [] Family = "zbig"    -> ZBodiesBig(0)
@@ -178,6 +195,7 @@ CaseRec == [body |-> body, n |-> NSpans(body),
             mech |-> [rows |-> [k \in DOMAIN TraceRows |-> RowOut(TraceRows[k])], tags |-> TagRows,
                       read |-> SetToSeq({[tid |-> t, spans |-> ReadTrace(t)] : t \in Tids}),
                       responses |-> Len(sent)],
+            odd |-> [n \in DOMAIN body.spans |-> OddFields(body.spans[n], body.spell)],
             flags |-> Flags, classes |-> Classes(body)]
 SeqHash(s) == SumSeq([k \in DOMAIN s |-> (k * 7 + 3) * (Len(s[k]) + 1)])
 CaseHash == IF body.proto = "zipkin"
